@@ -45,7 +45,9 @@ Inductive ccase :=
 | CDir (a out : str)
 | CUnzip (c : cfg) (dir : str) (clear : bool) (es : list entry) (before : fs) (res : N) (after : fs)
 | CUntar (c : cfg) (dir : str) (es : list entry) (before : fs) (res : N) (after : fs)
-| CZipDir (t : tree) (seen : list entry).
+| CZipDir (t : tree) (seen : list entry)
+| CFirstFile (c : cfg) (file : str) (es : list entry) (before : fs) (res : N) (after : fs)
+| CTarZip (dir : str) (names_in names_out : list str).
 
 Definition check_case (c : ccase) : bool :=
   match c with
@@ -63,6 +65,18 @@ Definition check_case (c : ccase) : bool :=
       let '(r, f) := untar c before dir es in
       (res_code r =? res) && fs_equiv f after
   | CZipDir t seen => entries_eqb (zip_dir t) seen
+  | CFirstFile c file es before res after =>
+      let '(r, f) := first_file_as c before file es in
+      ((match r with FOk => 0 | FNotFound => 4 | FOsErr => 2 end) =? res) && fs_equiv f after
+  | CTarZip dir names_in names_out =>
+      (* tarutil.TarZipFile: [name = path.Join(dir, name)] unless [dir] is empty *)
+      (fix eq (a b : list str) : bool :=
+         match a, b with
+         | [], [] => true
+         | x :: a', y :: b' => str_eqb x y && eq a' b'
+         | _, _ => false
+         end)
+        (map (fun n => if is_empty dir then n else path_join [dir; n]) names_in) names_out
   end.
 
 Fixpoint mismatches_from (i : nat) (cs : list ccase) : list nat :=
